@@ -29,4 +29,7 @@ def run(rep, fb, tier):
     _pr4.rule_py_call_shape(rep)
     from ..rules import lints as _lc
     _lc.rule_contiguous_guard(rep, fb)
+    _pr4.rule_py_bytes_str_arms(rep)
+    from ..rules import binding as _bd
+    _bd.rule_def_arg_order(rep, fb)
     rep.units = fb.units
